@@ -1,5 +1,5 @@
 import PgsVerif.Model.NameSplit
-import PgsVerif.Generated.Code
+import PgsVerif.Generated.Code_nameHelpers
 /-!
 # Tie (translated code): the eight case helpers of name.go
 
